@@ -15,7 +15,7 @@ CHECKS = {
         text=("SshVersion.tla is the reference order; TLC checks its laws (antisymmetry, transitivity, totality, monotone availability, "
               "numeric-not-textual) exhaustively on a small universe and computes the full comparison matrix of a larger universe, which is "
               "replayed pair by pair into Software.compare_version/between_versions through Banner.parse+Software.parse. The function is pure, "
-              "so the assurance is the exhaustive replay of TLC's matrix, not state exploration. Compatibility ranges: SshVersion (frames mode) gives the range of sets of releases; replayed into Timeframe and, for lists of real database entries, into Algorithms.get_ssh_timeframe."),
+              "so the assurance is the exhaustive replay of TLC's matrix, not state exploration. Compatibility ranges: SshVersion (frames mode) gives the range of sets of releases; replayed into Timeframe and, for lists of real database entries, into Algorithms.get_ssh_timeframe. The (gen) compatibility line as rendered is compared product by product."),
         design='8 C14, 9',
         note="TLC; releases are rendered as text by the harness (components joined by dots + patch suffix); pairs differing only in trailing .0 skipped",
         technique="TLA+ reference order model-checked with TLC; TLC-computed comparison matrix replayed into the code"),
@@ -62,7 +62,7 @@ CHECKS.update({
               "connection of a family of server archetypes. Conformance: byte-level refinements of those faults (truncation, length fields, types, random bytes, "
               "debug/pre-banner/segmentation) are injected at every message of three archetype transcripts, the real CLI is run, the direct clauses are checked "
               "and the recorded network trace is validated by TLC against TraceAudit.tla, which infers the failing read and evaluates every invariant at every step. "
-              "The same machine covers SSH-1 peers (fallback and -1), peers refusing both versions and client audits (-c), each with its own fault family. Faults in the connection-rate check, enormous group-exchange moduli, make-policy under probe faults, debug messages with arbitrary bodies. Every first-connection fault and a sample of the later ones are run again with -j (direct clauses); replies carrying RSA keys with 16000-bit exponents."),
+              "The same machine covers SSH-1 peers (fallback and -1), peers refusing both versions and client audits (-c), each with its own fault family. Faults in the connection-rate check, enormous group-exchange moduli, make-policy under probe faults, debug messages with arbitrary bodies. Every first-connection fault and a sample of the later ones are run again with -j (direct clauses); replies carrying RSA keys with 16000-bit exponents. A processor-time clause bounds computing (CPU time of each scenario process), exercised by a megabyte-long modulus."),
         design='8 C09, 14.2', note=AUDIT_NOTE, technique='TLC model checking (safety + liveness) of SshAudit.tla; fault-injected runs validated as traces against TraceAudit.tla'),
     'C11': dict(category='model_checking',
         text=("Thresholds, monotonicity and RSA-family fan-out are operators/invariants of SshRating.tla (SizeMonotone, Thresholds) and SshAudit.tla (RsaFanOut, one "
@@ -72,7 +72,7 @@ CHECKS.update({
     'C12': dict(category='model_checking',
         text=("SshAudit!GexProbe mirrors the probe loop against Group(moduli, style); TLC explores all 9216 servers (512 subsets x 3 styles x 2 banners x 3 algorithm "
               "sets), checks GexReportRule / NoSizeWhenRefused / GexRequestsFixed and emits each server's request/answer history and reported size; servers are "
-              "replayed through the CLI (all in thorough) comparing requests, answers, shown size, JSON keysize and size notes (texts from SshRating via TLC). A fault leg cuts short / replaces / withholds the k-th group message; TraceAudit's exit step binds the sizes the report shows to SshAudit!reported under those faults. Faults on the reply to KEX_DH_GEX_INIT, and servers that refuse every connection after the j-th, are validated the same way."),
+              "replayed through the CLI (all in thorough) comparing requests, answers, shown size, JSON keysize and size notes (texts from SshRating via TLC). A fault leg cuts short / replaces / withholds the k-th group message; TraceAudit's exit step binds the sizes the report shows to SshAudit!reported under those faults. Faults on the reply to KEX_DH_GEX_INIT, and servers that refuse every connection after the j-th, are validated the same way. Negotiating servers with unusual cipher lists are probed like any other."),
         design='8 C12', note=AUDIT_NOTE + '; the Python group selection is bound to the TLA+ one by comparing every answer', technique='exhaustive TLC exploration of the server family; every terminal state replayed'),
     'C19': dict(category='model_checking',
         text=("FootprintBounded, KexReqDiscipline, AllClosedAtExit, ProbesOnlyAfterHandshake are invariants of SshAudit.tla model-checked over the fault family and the "
@@ -90,7 +90,7 @@ CHECKS.update({
         text=("SshMulti.tla models the thread pool, the per-thread table copies (as dirty sets) and the per-worker configuration copies; TLC checks Isolation over all "
               "lists of <= 3 archetypes (one per edit channel), 1..3 threads and every interleaving, and confirms that the weaker mechanisms (tables discarded by the "
               "main thread only; shared configuration) violate it. Real runs: every ordered pair (+ triples) of 9 server archetypes under every pool size and feasible "
-              "completion order, text/JSON/policy; each block must equal the single-target result byte for byte, and the begin/end traces are validated against TraceMulti.tla. SshSched.tla generates every schedule of two worker threads with a bounded number of preemptions (quick: 1, one pair 2; thorough: 2, every pair of positions visited); harness/sched.py replays each by stopping the real threads at their network operations; every target's JSON equals its single-target result under every schedule."),
+              "completion order, text/JSON/policy; each block must equal the single-target result byte for byte, and the begin/end traces are validated against TraceMulti.tla. SshSched.tla generates every schedule of two worker threads with a bounded number of preemptions (quick: 1, one pair 2; thorough: 2, every pair of positions visited); harness/sched.py replays each by stopping the real threads at their network operations; every target's JSON equals its single-target result under every schedule. Scheduled pairs in text mode with a server advertising unknown names; -4/-6 over lists of names resolving to one family or both."),
         design='8 C07', note=MULTI_NOTE, technique='TLC model checking of SshMulti.tla + schedule-controlled replay + trace validation (TraceMulti.tla)'),
     'C08': dict(category='model_checking',
         text=("SshMulti.tla with outcome archetypes (healthy, connection error, exception, SystemExit in the worker): TLC checks Blocks, ExitIsMax, Framing and liveness "
@@ -132,7 +132,7 @@ CHECKS.update({
     'C16': dict(category='model_checking',
         text=("SshBanner.tla models the peer's identification exchange (other lines, banner built from parts, CR LF / LF) and the tool's reader (split, skip blank, header, "
               "banner, decompose, sanitise, render); TLC checks BannerFound, HeaderIsOthers, PartsAreParts, RoundTrip, KnownProducts on the grammar's universe and emits wire bytes "
-              "with the expected header/parts/product; all cases are replayed into SSH_Socket.get_banner, Banner.parse, str(), Software.parse and a sample through the CLI. Exchanges whose other lines repeat always go through the CLI; servers whose identification strings are shown alike ('?' literal vs. non-printable) are audited in one run, either order."),
+              "with the expected header/parts/product; all cases are replayed into SSH_Socket.get_banner, Banner.parse, str(), Software.parse and a sample through the CLI. Exchanges whose other lines repeat always go through the CLI; servers whose identification strings are shown alike ('?' literal vs. non-printable) are audited in one run, either order. Servers that are gone before the tool writes (writes fail, reads deliver) still get their lines reported."),
         design='8 C16, 9', note='TLC; byte sequences are transported as JSON arrays; comments compared after whitespace collapsing', technique='TLC enumeration of the banner grammar with a reference reader; states replayed into the banner/software parsers and the CLI'),
     'C17': dict(category='model_checking',
         text=("The live tables are exported as JSON on every run and SshTablesCheck.tla states their cross-relations (names known, hardening policies free of failed "
@@ -151,7 +151,7 @@ CHECKS.update({
         text=("SshOutput.tla models the output buffer (levels, always-print, sections, batch, colours); TLC checks LevelOnlyRemoves, ColourOnlyWraps, BatchOnlyDrops, NoRewrite "
               "for every call sequence up to MaxCalls x every option set and each case is replayed into the real OutputBuffer. Through the CLI the same audit is rendered under all 72 "
               "combinations of -b, -v, -n, -l, -j/-jj for peers covering every severity mix, with the expected findings and status from SshRating (TLC): status constant, findings "
-              "at level L = the expected findings filtered to L, colour codes only wrap, -j/-jj equal, repeat runs and 8 hash seeds (fresh interpreters) byte-identical. SshOutput models two-call lines (Result: + verdict); SSH-1 peers and policy audits are run under every option set (same status, one JSON document, no traceback). A rate-checked standard audit joins them; law: the JSON document is the same under every -l."),
+              "at level L = the expected findings filtered to L, colour codes only wrap, -j/-jj equal, repeat runs and 8 hash seeds (fresh interpreters) byte-identical. SshOutput models two-call lines (Result: + verdict); SSH-1 peers and policy audits are run under every option set (same status, one JSON document, no traceback). A rate-checked standard audit joins them; law: the JSON document is the same under every -l. Recommendations of every view are compared with SshRating!RecsOf."),
         design='8 C15', note=RATING_NOTE, technique='TLC model checking of the buffer laws + replay; CLI option matrix against TLC-evaluated findings'),
 })
 
